@@ -158,7 +158,8 @@ def Site.winnerSilent (s : Site) (cfg silent : SrcSet) : String :=
     * `cfg`  "fallback" (nil → core.Config()) | "global" | "param" | "unknown" | "-"
     * `inst` "set" | "unset" | "flow" | "-"                    the raising schema / check instance on the raw issue
     * `msg`  "empty" | "preset" | "flow" | "-"                 a message written before the chain runs
-    * `reached` the leaves of the behavioural catalogue whose issue this very call finalised (captured at run time) -/
+    * `reached` the leaves of the behavioural catalogue whose issue this very call finalised (captured at run time)
+    * `cells` / `dead`: leaf coverage (round 4b), see the fields -/
 structure IssueSite where
   key : String      -- file:func:callee#k
   gkey : String     -- file:func:callee   (the key of the gap list; stable under line shifts)
@@ -172,6 +173,13 @@ structure IssueSite where
   inst : String
   msg : String
   reached : List String
+  /-- round 4b: last line of the call, the called function, the first cell of the leaf-coverage search (harness/cmd/c18/reach.go:
+      constructor family x modifier variant x input) whose parse resolved a message at this very call (runtime stack link), and
+      whether the translator found the enclosing function unreachable from the public API (`deadFuncs`, by name) -/
+  lineEnd : Nat := 0
+  callee : String := ""
+  cells : List String := []
+  dead : Bool := false
   deriving Repr, DecidableEq
 
 def IssueSite.reaches (s : IssueSite) : Bool := s.cls == "finalize" || s.cls == "helper"
